@@ -2,7 +2,10 @@
 
 Path rules over ShareCrawler.{process_prefixdir, start_current_prefix,
 start_slice, stopService, save_state, load_state, __init__} and
-_LeaseStateSerializer.save (DESIGN.md section 5, C27)."""
+_LeaseStateSerializer.save (DESIGN.md section 5, C27); C27.6 adds a
+definite-assignment check of the same functions (locals and the instance
+attributes the traversal reads)."""
+import builtins
 import copy
 
 from sa.h import *
@@ -26,9 +29,19 @@ EXPLANATION = (
     "test does not establish 'is None': a finished cycle 0 is falsy); the index<->prefix-name decisions of "
     "load_state/save_state are read the same shape-independent way; last-cycle-finished = that cycle "
     "and the reset of current-cycle / last-complete-bucket / last_complete_prefix_index only after the prefix loop "
-    "is exhausted and before the final save. "
+    "is exhausted and before the final save; (6) a slice cannot abort on an unbound name (an exception other than "
+    "TimeSliceExceeded leaves start_slice without re-arming the timer, so the cycle is never completed): every local "
+    "of start_slice / start_current_prefix / process_prefixdir / save_state / load_state / __init__ / the serializer "
+    "and its helpers is bound on every CFG path (exception edges included) to each of its reads, and every instance "
+    "attribute the traversal reads is a class attribute, a twisted Service attribute, or is set on every path through "
+    "ShareCrawler.__init__ (directly or in a method it calls, e.g. load_state). "
     "Undecided: 'exactly once' under SIGKILL between process_bucket and save_state (documented duplicate work), "
-    "buckets added or removed while a prefix is cached, clock values.")
+    "buckets added or removed while a prefix is cached, clock values (the time-slice tests 'time.time() >= start_slice + "
+    "cpu_slice' may be negated, weakened or lose their raise without any rule firing: that changes only how often the "
+    "crawler yields, every bucket is still covered; likewise the sleep-time arithmetic of start_slice), the subclass "
+    "hooks (started_cycle / finished_prefix / finished_cycle / add_initial_state / yielding calls are not required), "
+    "other run-time exceptions inside a slice (KeyError on a missing state key, exceptions raised by process_bucket), "
+    "stopService called from inside a slice (one-shot crawlers) relying on start_slice having cleared self.timer.")
 TECHNIQUE = "static analysis: CFG path rules (must-precede / must-follow / guarded effect) with flow-normalised edge facts"
 
 SC = "storage.crawler:ShareCrawler"
@@ -819,3 +832,151 @@ def run(ctx: Context):
                       sc, sc.loc(c2), "finished_cycle is told %s" % src(sc, arg(c2, 0)))
             for (t, w) in find_path_avoiding(ccfg, lambda x, _n=n: x is _n, gate_edge=done):
                 r.violation(sc, sc.loc(n.ast), "finished_cycle is announced before every prefix was processed", w)
+
+    # -- 6. a slice cannot abort on an unbound name ---------------------------------------
+    # An exception other than TimeSliceExceeded leaves start_slice (a reactor.callLater callback: the error is
+    # logged, the node keeps running) without save_state and without re-arming the timer - the cycle in progress
+    # is never completed.  Two structural sources of such an exception are decidable: a local read on a path that
+    # did not bind it (UnboundLocalError), and an instance attribute read by the traversal that the constructor
+    # does not initialise (AttributeError - typically only after a restart in mid-cycle, when the code that binds
+    # it lazily is not run again).
+    with ctx.rule("C27.6", "R2", "no slice-aborting unbound name: every local of the crawler's traversal / state "
+                  "functions is bound on every path to its reads; every instance attribute the traversal reads is a "
+                  "class attribute or is set on every path through ShareCrawler.__init__ (directly or in a method it "
+                  "calls)", expected=20) as r:
+        sc_cls = idx.cls(SC)
+        fns = [idx.func(SC + "." + m) for m in ("__init__", "load_state", "save_state", "get_state", "startService",
+                                                "stopService", "start_slice", "start_current_prefix", "process_prefixdir")]
+        fns += [idx.func(SER + ".save"), idx.func(SER + ".load"), idx.func("storage.crawler:_dump_json_to_file"),
+                idx.func("storage.common:storage_index_to_dir"), idx.func("util.fileutil:move_into_place")]
+        for f in fns:
+            r.site(f, None, "locals bound before use")
+            for (n, name, w) in _unbound_reads(f):
+                if f.cls is sc_cls and f.name in ("start_slice", "start_current_prefix", "process_prefixdir", "save_state",
+                                                  "get_state"):
+                    cons = (": the slice aborts with an exception start_slice does not catch - the timer is not "
+                            "re-armed, the cycle is never completed")
+                elif f.cls is sc_cls and f.name in ("__init__", "load_state"):
+                    cons = ": the crawler cannot be rebuilt from its saved state"
+                else:
+                    cons = ""
+                r.violation(f, f.loc(n.ast), "the name %s is read on a path that never bound it (UnboundLocalError / NameError)%s "
+                            "(path: %s)" % (name, cons, w.brief()), w)
+            r.count(len(f.cfg().nodes))
+        # -- instance attributes read by the traversal
+        init = idx.func(SC + ".__init__")
+        trav = [idx.func(SC + "." + m) for m in ("start_slice", "start_current_prefix", "process_prefixdir",
+                                                 "save_state", "get_state", "stopService", "startService")]
+        # attributes of twisted's Service / MultiService (set by the base class)
+        BASE_ATTRS = ("running", "parent", "name", "services", "namedServices")
+        reads = {}
+        for f in trav:
+            for x in func_own_nodes(f):
+                if isinstance(x, ast.Attribute) and isinstance(x.ctx, ast.Load) and isinstance(x.value, ast.Name) \
+                        and x.value.id == "self":
+                    reads.setdefault(x.attr, (f, x))
+        core = ("state", "last_complete_prefix_index", "prefixes", "sharedir", "bucket_cache", "_state_serializer")
+        if [a for a in core if a not in reads]:
+            raise AnchorVanished("the traversal no longer reads self.%s" % [a for a in core if a not in reads][0])
+        for a in sorted(reads):
+            (f, x) = reads[a]
+            if sc_cls.lookup(a) is not None:
+                continue
+            r.site(f, x, "self.%s initialised" % a)
+            if sc_cls.lookup_attr(a) is not None or a in BASE_ATTRS:
+                continue
+            bad = _not_definitely_set(sc_cls, init, a, 3)
+            if bad:
+                r.violation(init, init.loc(), "%s reads self.%s, which ShareCrawler.__init__ does not set on every path "
+                            "(AttributeError in the slice - at the latest after a restart in mid-cycle; the slice "
+                            "aborts without save_state and without re-arming the timer)" % (short(f), a), bad[0][1])
+
+
+def _comp_bound(e):
+    out = set()
+    for x in own_nodes(e):
+        if isinstance(x, (ast.ListComp, ast.SetComp, ast.DictComp, ast.GeneratorExp)):
+            for g in x.generators:
+                out |= {t.id for t in ast.walk(g.target) if isinstance(t, ast.Name)}
+    return out
+
+
+def _module_names(mod):
+    out = set()
+    for x in own_nodes(mod.tree):
+        if isinstance(x, ast.Name) and isinstance(x.ctx, ast.Store):
+            out.add(x.id)
+        elif isinstance(x, (ast.FunctionDef, ast.AsyncFunctionDef, ast.ClassDef)):
+            out.add(x.name)
+        elif isinstance(x, (ast.Import, ast.ImportFrom)):
+            for al in x.names:
+                if al.name == "*":
+                    raise AnalysisError("star import in %s: the module-level names are not known" % mod.name)
+                out.add((al.asname or al.name).split(".")[0])
+        elif isinstance(x, ast.ExceptHandler) and x.name:
+            out.add(x.name)
+    return out
+
+
+def _node_loads(n):
+    out = set()
+    for e in node_exprs(n):
+        inner = _comp_bound(e)
+        for x in own_nodes(e):
+            if isinstance(x, ast.Name) and isinstance(x.ctx, ast.Load) and x.id not in inner:
+                out.add(x.id)
+    if isinstance(n.ast, ast.AugAssign) and isinstance(n.ast.target, ast.Name):
+        out.add(n.ast.target.id)
+    return out
+
+
+def _unbound_reads(fn):
+    """[(node, local name, witness)]: reads of a local on a CFG path (exception edges included) on which no store
+    of that local was completed."""
+    cfg = fn.cfg()
+    a = fn.node.args
+    params = {p.arg for p in list(a.posonlyargs) + list(a.args) + list(a.kwonlyargs)}
+    params |= {p.arg for p in (a.vararg, a.kwarg) if p is not None}
+    outer = set()
+    for x in func_own_nodes(fn):
+        if isinstance(x, (ast.Global, ast.Nonlocal)):
+            outer |= set(x.names)
+    local = set()
+    for n in cfg.nodes:
+        local |= {s for s in node_stores(n) if "." not in s and not s.endswith("[]")}
+    local -= params | outer
+    out = []
+    # a name that is bound nowhere - not in the function, not at module level, not a builtin - is a NameError
+    if fn.parent is None:
+        known = local | params | outer | _module_names(fn.module) | set(dir(builtins))
+        for n in cfg.nodes:
+            if n.kind in ("entry", "exit", "raise"):
+                continue
+            for name in sorted(_node_loads(n) - known):
+                for (t, w) in find_path_avoiding(cfg, lambda x, _n=n: x is _n, gate_node=lambda x: False):
+                    out.append((n, name, w))
+    for name in sorted(local):
+        def bound(n, lab, _v=name):
+            return lab != "exc" and _v in node_stores(n) and (n.kind != "iter" or lab == "iter")
+        for (n, w) in find_path_avoiding(cfg, lambda n, _v=name: n.kind not in ("entry", "exit", "raise")
+                                         and _v in _node_loads(n), gate_edge=bound):
+            out.append((n, name, w))
+    return out
+
+
+def _not_definitely_set(ci, fn, attr, depth):
+    """[] when every normal path through fn stores self.<attr> (or calls a method of the class that does)."""
+    path = "self." + attr
+
+    def sets(n):
+        if path in node_stores(n):
+            return True
+        if depth > 0:
+            for c in node_calls(n):
+                nm = call_name(c)
+                if nm.startswith("self.") and nm.count(".") == 1:
+                    m = ci.lookup(nm.split(".", 1)[1])
+                    if m is not None and m is not fn and not _not_definitely_set(ci, m, attr, depth - 1):
+                        return True
+        return False
+    return find_path_avoiding(fn.cfg(), lambda n: n.kind == "exit", gate_node=sets)
